@@ -80,6 +80,14 @@ def gen_tree(rng, depth=4, broken_p=0.12, counter=None):
                 dn = rng.choice(DIRN)
                 if dn in used: continue
                 used.add(dn); out.append((rel + dn, "dir", None)); rec(rel + dn + "/", d - 1)
+        if d > 0 and rng.random() < 0.15:
+            # two paths that read the same once their separators are flattened to '_' (user/edit_form and user_edit/form): each its own module and function
+            a, b_, c_ = rng.choice([("user", "edit", "form"), ("a", "b", "c"), ("x1", "y", "z_w"), ("pages", "blog", "list")])
+            suf = rng.choice(SUFFIX)
+            for dn, stem in ((a, b_ + "_" + c_), (a + "_" + b_, c_)):
+                if dn not in used:
+                    used.add(dn); out.append((rel + dn, "dir", None)); counter[0] += 1
+                    out.append((rel + dn + "/" + stem + suf, "tmpl", "@()\nM%d;" % counter[0]))
         if rng.random() < 0.2:
             # two templates of one directory whose generated names are prefixes of one another (page_html / page_html_svg)
             stem = rng.choice(["pg", "q7", "Idx"]); e1 = rng.choice(SUFFIX); e2 = rng.choice(SUFFIX)
@@ -226,7 +234,7 @@ def edit_history(rng, length):
     edits = []
     cnt = [1000]
     for _ in range(length):
-        k = rng.choice(["add", "modify", "delete", "rename", "break", "repair", "static", "adddir", "nothing"])
+        k = rng.choice(["add", "modify", "delete", "rename", "break", "repair", "static", "adddir", "nothing", "restore", "moveover"])
         cnt[0] += 1
         if k == "add":
             d = rng.choice([""] + [x + "/" for x in dirs]); p = d + rng.choice(IDENTS) + rng.choice(SUFFIX)
@@ -238,6 +246,13 @@ def edit_history(rng, length):
         elif k == "rename" and files:
             p = files.pop(rng.randrange(len(files))); q = (p.rsplit("/", 1)[0] + "/" if "/" in p else "") + "rn%d" % cnt[0] + rng.choice(SUFFIX)
             files.append(q); edits.append([('N', 't/' + p, 't/' + q)])
+        elif k == "restore" and files:
+            # other content arriving with the old modification time (cp -p, rsync -t, a restored backup): older than everything generated from it
+            edits.append([('T', 't/' + rng.choice(files), rng.choice(["@()\nT%d;" % cnt[0], "@(n: u8)\n<b>@n</b> restored %d" % cnt[0]]))])
+        elif k == "moveover" and len(files) >= 2:
+            # one template deleted and an older one moved onto its name (the moved file keeps its own, older, modification time)
+            q = files.pop(rng.randrange(len(files))); p_ = rng.choice(files)
+            edits.append([('X', 't/' + p_), ('N', 't/' + q, 't/' + p_)])
         elif k == "break" and files:
             edits.append([('W', 't/' + rng.choice(files), "@(broken %d" % cnt[0])])
         elif k == "repair" and files:
@@ -276,7 +291,9 @@ def run_c12(pid, tier):
             elif mode < 0.5:
                 # a build that dies at its k-th physical write, the file cut at 0 / mid / len-1 bytes
                 steps.append(('C', rng.randint(0, 5), rng.choice([0, -2, -1]), PROG_FULL))
-            steps += [('Z',), ('R', PROG_FULL)]
+            # (no sentinel after an edit that brings in an older file: the generated files keep their own, newer, modification times)
+            older = any(st[0] == 'T' and st[1].startswith('t/') for st in e) or (len(e) == 2 and e[0][0] == 'X' and e[1][0] == 'N')
+            steps += ([] if older else [('Z',)]) + [('R', PROG_FULL)]
             kinds.append("edit" if e else "unchanged")
             # the same inputs again, nothing changed
             if rng.random() < 0.5:
